@@ -181,3 +181,33 @@ Fixpoint serial (open : bool) (n : nat) (tr : list obs) : option (bool * nat) :=
   | FnEnd c _ _ :: r => if open && Nat.eqb (S c) n then serial false n r else None
   | _ :: r => serial open n r
   end.
+
+(* ---- sub-monitor of C07: shutdown.  Before the first Shutdown event no DaemonEnded is
+        observed; the step of the first Shutdown shows exactly [DaemonEnded]; every later step
+        shows nothing at all. ------------------------------------------------------------- *)
+Definition has_ended (o : list obs) : bool := existsb is_ended o.
+Definition all_empty (obss : list (list obs)) : bool :=
+  forallb (fun o => match o with [] => true | _ => false end) obss.
+Fixpoint shut_ok (evs : list event) (obss : list (list obs)) : bool :=
+  match evs, obss with
+  | [], [] => true
+  | Shutdown :: er, o :: osr =>
+      match o with [DaemonEnded] => Nat.eqb (length er) (length osr) && all_empty osr | _ => false end
+  | _ :: er, o :: osr => negb (has_ended o) && shut_ok er osr
+  | _, _ => false
+  end.
+
+(* ---- sub-monitor of C03: call sets.  Every FnEnd closes the open call, with the same number
+        and the very set the call was started with (the set is not changed under the call); no
+        FnStart while a call is open.  State = the open call. ------------------------------ *)
+Fixpoint csets (open : option (nat * list nat)) (tr : list obs) : option (option (nat * list nat)) :=
+  match tr with
+  | [] => Some open
+  | FnStart c set _ :: r => match open with None => csets (Some (c, set)) r | Some _ => None end
+  | FnEnd c _ set :: r =>
+      match open with
+      | Some (c', set') => if Nat.eqb c c' && nats_eqb set set' then csets None r else None
+      | None => None
+      end
+  | _ :: r => csets open r
+  end.
